@@ -160,6 +160,10 @@ config_t *make_config(const std::string &tmpl)
         config_set_bool(c, "compallsen", 1);
     if (tmpl == "env")
         config_set_bool(c, "varnorm", 1);
+    if (tmpl == "enx") { // rarely used scoring options: Gaussian selection every second frame, two codewords per feature
+        config_set_int(c, "ds", 2);
+        config_set_int(c, "topn", 2);
+    }
     return c;
 }
 
